@@ -1,4 +1,4 @@
-import NeumannModel.Durable.Failing
+import NeumannModel.Durable.Rotate
 /-
   C02 — "Durable store: acknowledged writes survive any crash, in order".
   ONLY the property theorems and their non-vacuity examples; the definitions used by the
@@ -569,6 +569,69 @@ theorem rotation_keeps_acked_partial (hc : CodecOK crc enc dec) (maxSize : Nat) 
   rw [runOps_replay]
   exact MetaEq.refl _
 
+/-- **The step boundaries of `TensorWal::rotate`** (`max_rotated_files = m ≥ 1`; the directory after
+    each file-system call: oldest segment removed / each rename of the shifting loop / live file
+    renamed to `.1` / fresh live file created).  At EVERY boundary the file recovery reads is
+    either the live file as it was before the rotation or empty, and every record of the live
+    file and of every segment except the oldest is still in some file (no rename overwrites a
+    file that holds records) — so the acknowledged records a crash inside `rotate` keeps from
+    recovery are never destroyed by the rotation itself, only not read
+    (`rotation_step_loses_live_file_witness`; finding
+    `tensor_store.wal.rotate/acked_entries_not_replayed`). -/
+theorem rotation_steps_keep_all_but_oldest (m : Nat) (hm : 1 ≤ m) (d : LogDir) :
+    ∀ st ∈ d.rotateSteps m,
+      (st.recoverFile = d.recoverFile ∨ st.recoverFile = []) ∧
+      (∀ c, d.live = some c → st.holds c) ∧
+      (∀ n c, n ≠ m → aget d.segs n = some c → st.holds c) := by
+  intro st hst
+  have hfree : aget (aerase d.segs m) (m - 1 + 1) = none := by
+    rw [Nat.sub_add_cancel hm]; exact aget_aerase_eq _ _
+  obtain ⟨k1, k2, k3, k4⟩ := shift_keeps { d with segs := aerase d.segs m } (m - 1) hfree
+  have hd0 : ∀ n c, n ≠ m → aget d.segs n = some c → aget (aerase d.segs m) n = some c := by
+    intro n c hn h
+    rw [aget_aerase_ne _ _ _ (Ne.symm hn)]; exact h
+  -- the directory after "live file renamed to `.1`", whatever directory the shifting loop ends in
+  have last : ∀ d1 : LogDir, d1.live = d.live →
+      (∀ n c, aget (aerase d.segs m) n = some c → ∃ n', aget d1.segs n' = some c) →
+      aget d1.segs 1 = none →
+      d1.retire.live = none ∧
+      (∀ c, d.live = some c → ∃ n, aget d1.retire.segs n = some c) ∧
+      (∀ n c, n ≠ m → aget d.segs n = some c → ∃ n', aget d1.retire.segs n' = some c) := by
+    intro d1 h1 h3 h4
+    unfold LogDir.retire
+    cases hl : d1.live with
+    | none =>
+      refine ⟨hl, fun c hc => ?_, fun n c hn h => h3 n c (hd0 n c hn h)⟩
+      rw [← h1, hl] at hc; cases hc
+    | some c0 =>
+      refine ⟨rfl, fun c hc => ?_, fun n c hn h => ?_⟩
+      · rw [← h1, hl] at hc
+        injection hc with hc
+        subst hc
+        exact ⟨1, aget_aset_eq _ _ _⟩
+      · obtain ⟨n', hn'⟩ := h3 n c (hd0 n c hn h)
+        have : n' ≠ 1 := by intro e; subst e; rw [h4] at hn'; cases hn'
+        exact ⟨n', by rw [aget_aset_ne _ _ _ _ (Ne.symm this)]; exact hn'⟩
+  obtain ⟨l1, l2, l3⟩ := last _ k2 k3 k4
+  rcases mem_rotateSteps hst with rfl | h | rfl | rfl
+  · exact ⟨.inl rfl, fun c hc => .inl hc, fun n c hn h => .inr ⟨n, hd0 n c hn h⟩⟩
+  · obtain ⟨a, b⟩ := k1 st h
+    exact ⟨.inl (by unfold LogDir.recoverFile; rw [a]), fun c hc => .inl (a.trans hc),
+      fun n c hn h' => .inr (b n c (hd0 n c hn h'))⟩
+  · exact ⟨.inr (by unfold LogDir.recoverFile; rw [l1]; rfl), fun c hc => .inr (l2 c hc),
+      fun n c hn h => .inr (l3 n c hn h)⟩
+  · exact ⟨.inr rfl, fun c hc => .inr (l2 c hc), fun n c hn h => .inr (l3 n c hn h)⟩
+
+/-- the hypotheses of `rotation_steps_keep_all_but_oldest` on a directory with a live file and two
+    segments (`max_rotated_files = 2`): four step boundaries; after the third the log path does
+    not exist, after the fourth it is empty, and `.1` holds the former live file -/
+example :
+    let d : LogDir := ⟨some [1, 2, 3], [(1, [4]), (2, [5])]⟩
+    (d.rotateSteps 2).length = 4 ∧
+    (d.rotateSteps 2).map (·.recoverFile) = [[1, 2, 3], [1, 2, 3], [], []] ∧
+    (d.rotateSteps 2).getLast? = some ⟨some [], [(1, [1, 2, 3]), (2, [4])]⟩ := by
+  decide +kernel
+
 /-! ### refuted statements (concrete witnesses) -/
 
 /-- **Pre-fix `open` (append at physical EOF) loses an acknowledged record** — the defect class
@@ -607,6 +670,24 @@ theorem rotation_keeps_acked_witness :
   have h1 := hme [1]
   rw [of_decide_eq_true hp] at h1
   exact absurd h1 (by decide +kernel)
+
+/-- **A crash inside `rotate` after the live file has been renamed** (same finding, at a step
+    boundary): two acknowledged puts, then a rotation; at the boundary "live file renamed to `.1`,
+    fresh file not yet created" (and at the next one) recovery reads nothing and returns the empty
+    store, although `.1` holds both records. -/
+theorem rotation_step_loses_live_file_witness :
+    let crc : Bytes → Nat := fun _ => 0
+    let ops := [Op.put [1] ⟨[1], none⟩, Op.put [2] ⟨[2], none⟩]
+    let file := logBytes crc toyEnc (runOps Store.empty ops).1
+    let d : LogDir := ⟨some file, []⟩
+    ∃ st ∈ d.rotateSteps 2, st.live = none ∧ aget st.segs 1 = some file ∧
+      ∃ r, recover crc toyDec none st.recoverFile = .ok r ∧ aget r.md [1] = none ∧
+        ¬ MetaEq r.md (specRun [] ops) := by
+  intro crc ops file d
+  refine ⟨⟨none, [(1, file)]⟩, by decide +kernel, rfl, by decide +kernel, Store.empty, by decide +kernel,
+    rfl, ?_⟩
+  intro h
+  exact absurd (h [1]) (by decide +kernel)
 
 /-- **Checkpoint without the fsync step** (class
     `tensor_store.slab_router.checkpoint/unsynced_tail_replayed_over_snapshot`, fixed by repo
